@@ -81,6 +81,16 @@ theorem C05_sound (ver : Ver) (H : Bytes → Bytes) (hH : ∀ m, (H m).length = 
     · rw [Trie.get, Gossamer.keyLEToNibbles_eq, hget, hval]
   · exact .inr hc
 
+/-- the hypotheses of `C05_sound` are satisfiable and its first disjunct is what holds: on the
+    three-key state below (`cexTrie`, defined with the counterexamples) the root alone proves `1f ↦ dd` -/
+example : verify (fun b => (b ++ List.replicate 32 0).take 32) false
+      [encodeNode Ver.v0 (fun b => (b ++ List.replicate 32 0).take 32)
+        (Trie.put (Trie.put Trie.nil [0x12, 0x34] [0xaa]) [0x1f] [0xdd])]
+      (hashTrie Ver.v0 (fun b => (b ++ List.replicate 32 0).take 32)
+        (Trie.put (Trie.put Trie.nil [0x12, 0x34] [0xaa]) [0x1f] [0xdd])) [0x1f] [0xdd] = .ok ∧
+    Trie.get (Trie.put (Trie.put Trie.nil [0x12, 0x34] [0xaa]) [0x1f] [0xdd]) [0x1f] = some [0xdd] := by
+  decide
+
 /-- FULL STATEMENT (false for the code, see `C05_sound_map_counterexample`):
     `Rep t es → verify … (specRoot ver H es) key value = ok → value ≠ [] →
        OMap.get key es = some value ∨ CollisionWith …`.
